@@ -23,14 +23,51 @@ let print_cout = function
 
 let run_cache lines =
   let ops = List.map cop_of_line lines in
-  List.iter print_cout (crun (Z0, empty_cache) ops)
+  List.iter (fun g -> List.iter print_cout g; out_line ".") (crun_g (Z0, empty_cache) ops)
+
+(* parse an output line of the cache engine (model or implementation) *)
+let strip_brackets s =
+  let n = String.length s in
+  if n >= 2 && s.[0] = '[' && s.[n-1] = ']' then String.sub s 1 (n - 2) else failwith ("brackets: " ^ s)
+let cout_of_line l =
+  match words l with
+  | [t; "SIG"; nm; r; snap] ->
+    let r = record_of_tok r in
+    let sg = if nm = "shouldQuery" then ShouldQuery r else if nm = "recordExpired" then Expired r else failwith ("signal " ^ nm) in
+    OSig (z_of_int (int_of_string t), sg, list_of_tok record_of_tok (strip_brackets snap))
+  | ["LOOKUP"; rs] -> OLookup (list_of_tok record_of_tok (strip_brackets rs))
+  | _ -> failwith ("cache output: " ^ l)
+
+(* monitor input: "> op" lines each followed by the "< output" lines observed for it *)
+let group_trace parse_op parse_out lines =
+  let ops = ref [] and cur = ref None in
+  let flush () = match !cur with None -> () | Some (o, outs) -> ops := (o, List.rev outs) :: !ops in
+  List.iter (fun l ->
+    if String.length l >= 2 && l.[0] = '>' then begin
+      flush (); cur := Some (parse_op (String.sub l 2 (String.length l - 2)), [])
+    end else if String.length l >= 2 && l.[0] = '<' then begin
+      match !cur with
+      | Some (o, outs) -> cur := Some (o, parse_out (String.sub l 2 (String.length l - 2)) :: outs)
+      | None -> failwith "output before any operation"
+    end else failwith ("trace line: " ^ l)) lines;
+  flush ();
+  List.rev !ops
+
+let print_verdict = function
+  | None -> out_line "ACCEPT"
+  | Some (k, c) -> out_line (Printf.sprintf "REJECT op=%d code=%d" (int_of_n k) (int_of_n c))
+
+let run_mon_cache lines =
+  let tr = group_trace cop_of_line cout_of_line lines in
+  print_verdict (mon_cache (List.map fst tr) (List.map snd tr))
 
 (* ---------------- main ---------------- *)
 let engines : (string * (string list -> string list -> unit)) list ref = ref []
 let register name f = engines := (name, f) :: !engines
 
 let () =
-  register "cache" (fun _ lines -> run_cache lines)
+  register "cache" (fun _ lines -> run_cache lines);
+  register "mon-cache" (fun _ lines -> run_mon_cache lines)
 
 let flush_script hdr lines =
   match hdr with
